@@ -5,6 +5,7 @@ import (
 	"encoding/json"
 	"fmt"
 	"reflect"
+	"regexp"
 	"strings"
 
 	"github.com/formancehq/stack/libs/go-libs/bun/bunpaginate"
@@ -71,6 +72,17 @@ func count(s *Store, ctx context.Context, builders ...func(query *bun.SelectQuer
 	return s.bucket.db.NewSelect().
 		TableExpr("(" + query.String() + ") data").
 		Count(ctx)
+}
+
+// an address filter is a (possibly partial) account address: segments of the account alphabet, some of them empty.
+// The filters below are rendered into the SQL text, so anything else must be refused.
+var addressFilterRegexp = regexp.MustCompile("^(?:" + ledger.AccountSegmentRegex + ")?(?::(?:" + ledger.AccountSegmentRegex + ")?)*$")
+
+func validateAddressFilter(address string) error {
+	if !addressFilterRegexp.MatchString(address) {
+		return newErrInvalidQuery("invalid address filter '%s'", address)
+	}
+	return nil
 }
 
 func filterAccountAddress(address, key string) string {
